@@ -654,7 +654,10 @@ func TestF30_SelfContainingValue(t *testing.T) {
 	m["self"] = m
 	f := am.MustFunc(am.NewFunc(func(a int) int { return a }))
 	done := make(chan error, 1)
-	go func() { done <- f.Call(am.Typed(3), am.Typed(m), am.Logger(hclog.NewNullLogger())).Err() }()
+	go func() {
+		res := f.Call(am.Typed(3), am.Typed(m), am.Logger(hclog.NewNullLogger()))
+		done <- res.Err()
+	}()
 	select {
 	case err := <-done:
 		if err != nil {
